@@ -98,8 +98,22 @@ def equil_job(comm, shape, nprocs, cfile_consts, out):
     data = f.getAllData()
     for i, gr in enumerate(range(lay.starts[0], lay.ends[0])):
         data[i, :, :, :] = feq[gr, :][None, None, :]
-    DensityFinder(6, vb, eta, c).getPerturbedRho(f, rho)
-    out[rk] = float(np.max(np.abs(rho.getAllData()))) if rho.getAllData().size else 0.0
+    finder = DensityFinder(6, vb, eta, c)
+    finder.getPerturbedRho(f, rho)
+    worst = float(np.max(np.abs(rho.getAllData()))) if rho.getAllData().size else 0.0
+    if nprocs[0] != nprocs[1]:
+        # the SAME finder on a second pair of grids that is decomposed the other way round (other local radii on this rank)
+        g4 = getLayoutHandler(comm, STD, list(nprocs)[::-1], eta)
+        g3 = getLayoutHandler(comm, {"v_parallel_2d": [0, 2, 1], "mode_solve": [1, 2, 0]}, list(nprocs)[::-1], eta[:3])
+        f2 = Grid(eta, [None] * 4, g4, "v_parallel", comm)
+        rho2 = Grid(eta[:3], [None] * 3, g3, "v_parallel_2d", comm, dtype=np.complex128)
+        lay2 = g4.getLayout("v_parallel")
+        for i, gr in enumerate(range(lay2.starts[0], lay2.ends[0])):
+            f2.getAllData()[i, :, :, :] = feq[gr, :][None, None, :]
+        finder.getPerturbedRho(f2, rho2)
+        if rho2.getAllData().size:
+            worst = max(worst, float(np.max(np.abs(rho2.getAllData()))))
+    out[rk] = worst
 
 
 def run(ctx):
